@@ -350,3 +350,50 @@ Proof.
   pose proof (at_most_once_all b (h ++ h') Hb) as A. unfold trace_at in *. rewrite run_app in A.
   destruct (run (init_at b) h) as [s0 o0]. simpl in *. rewrite Hh' in A. simpl in A. exact A.
 Qed.
+
+(* ---- the order of the tests in recheck_status: the incoming queue is searched BEFORE the connection state is looked at.
+        Whatever a pass completes the call with: if a message with the call's serial is queued it is that message (the first
+        one); only when there is none can it be the Disconnected error or the call's own timeout error.  (Seeded defect C11_5
+        swaps the two tests: then a reply read together with the end of the stream loses against Disconnected.) ---- *)
+Lemma sc_obs_none st i st' o j m : start_complete st i None = (st', o) -> In (OComplete j m) o ->
+  j = i /\ exists c, nth_error (calls st) i = Some c /\ m = noreply (c_serial c).
+Proof.
+  unfold start_complete. destruct (nth_error (calls st) i) as [c|]; [|intros E; inversion E; subst; intros []].
+  destruct (c_link c); [|intros E; inversion E; subst; intros [H|[]]; discriminate].
+  destruct (c_reply c); [intros E; inversion E; subst; intros [H|[]]; discriminate|].
+  destruct (negb (m_rs (noreply (c_serial c)) =? c_serial c)); [intros E; inversion E; subst; intros [H|[]]; discriminate|].
+  destruct (c_completed c); intros E; inversion E; subst; intros [H|[]]; try discriminate. inversion H; subst. eauto.
+Qed.
+
+Lemma tc_obs st i st' o j m c : nth_error (calls st) i = Some c -> timeout_complete st i = (st', o) -> In (OComplete j m) o ->
+  j = i /\ m = noreply (c_serial c).
+Proof.
+  intros Hn Hr Hi. unfold timeout_complete in Hr. destruct (start_complete st i None) as [s3 o3] eqn:Es. inversion Hr; subst.
+  destruct (sc_obs_none _ _ _ _ _ _ Es Hi) as [-> [c' [Hc' ->]]]. rewrite Hn in Hc'. inversion Hc'; subst. auto.
+Qed.
+
+Theorem reply_first st i g st' o j m :
+  step st (EBlockStep i g) = (st', o) -> In (OComplete j m) o ->
+  j = i /\ exists c, nth_error (calls (u_status st)) i = Some c /\
+    match find_reply (queue (u_status st)) (c_serial c) with
+    | Some (x, _) => m = x
+    | None => m = disconnected_err (c_serial c) \/ m = noreply (c_serial c)
+    end.
+Proof.
+  intros E Hin. unfold step in E. destruct (negb (fault st =? 0)); [inversion E; subst; destruct Hin as [H|[]]; discriminate|].
+  unfold blk_recheck in E. set (s1 := u_status st) in *.
+  destruct (nth_error (calls s1) i) as [c|] eqn:Hn; [|inversion E; subst; destruct Hin].
+  destruct (c_completed c); [inversion E; subst; destruct Hin|].
+  unfold blk_check in E. rewrite Hn in E.
+  destruct (find_reply (queue s1) (c_serial c)) as [[x q']|] eqn:Ef.
+  { destruct (start_complete (set_queue s1 q') i (Some x)) as [s3 o3] eqn:Es. inversion E; subst.
+    destruct (sc_obs_msg _ _ _ _ _ _ _ Es Hin) as [-> ->]. split; [reflexivity|]. exists c. split; [reflexivity|]. rewrite Ef. reflexivity. }
+  destruct (negb (connected s1)).
+  { inversion E as [E1]. destruct (sc_obs_msg _ _ _ _ _ _ _ E1 Hin) as [-> ->]. split; [reflexivity|]. exists c. split; [reflexivity|]. rewrite Ef. auto. }
+  destruct (negb (disc_link s1)).
+  { destruct (timeout_complete s1 i) as [s3 o3] eqn:Et. inversion E; subst. destruct (tc_obs _ _ _ _ _ _ _ Hn Et Hin) as [-> ->].
+    split; [reflexivity|]. exists c. split; [reflexivity|]. rewrite Ef. auto. }
+  destruct (negb (c_finite c)); [inversion E; subst; destruct Hin|]. destruct (negb g); [inversion E; subst; destruct Hin|].
+  destruct (timeout_complete s1 i) as [s3 o3] eqn:Et. inversion E; subst. destruct (tc_obs _ _ _ _ _ _ _ Hn Et Hin) as [-> ->].
+  split; [reflexivity|]. exists c. split; [reflexivity|]. rewrite Ef. auto.
+Qed.
